@@ -147,6 +147,7 @@ func generate(prop, tier string, seed uint64, w *bufio.Writer) {
 		genC07(e, r, tier)
 	case "C08":
 		genEnc(e, r, budget(tier, 6000, 120000), true, "enc")
+		genOversize(e, r)
 	case "C09":
 		genC09(e, r, tier)
 	case "C10":
@@ -349,6 +350,25 @@ func genEnc(e *emitter, r *rng, n int, wild bool, op string) {
 		}
 		e.emit(typeName(p), op1(op, packetSx(p)))
 	}
+}
+
+// encodings longer than the 16-bit length field can express (262140 octets): finding F18
+func genOversize(e *emitter, r *rng) {
+	big := &rtcp.SourceDescription{}
+	for c := 0; c < 31; c++ {
+		ch := rtcp.SourceDescriptionChunk{Source: r.u32()}
+		for i := 0; i < 34; i++ {
+			ch.Items = append(ch.Items, rtcp.SourceDescriptionItem{Type: rtcp.SDESNote, Text: string(r.bytesN(255))})
+		}
+		big.Chunks = append(big.Chunks, ch)
+	}
+	e.emit("oversize-sdes", op1("enc", packetSx(big)))
+	cc := &rtcp.CCFeedbackReport{SenderSSRC: 1}
+	for b := 0; b < 9; b++ {
+		blk := rtcp.CCFeedbackReportBlock{MediaSSRC: uint32(b), BeginSequence: 0, MetricBlocks: make([]rtcp.CCFeedbackMetricBlock, 16384)}
+		cc.ReportBlocks = append(cc.ReportBlocks, blk)
+	}
+	e.emit("oversize-ccfb", op1("enc", packetSx(cc)))
 }
 
 // ---- C02 ----
